@@ -656,7 +656,9 @@ class LogSumPenalty(BasePenalty):
 
     def derivative(self, w):
         """Compute the element-wise derivative."""
-        return np.sign(w) / (np.abs(w) + self.eps)
+        # derivative w.r.t. |w| (as L0_5 and L2_3 do): these are the non-negative weights of
+        # the reweighted L1 surrogate, 1 / eps at w = 0
+        return 1. / (np.abs(w) + self.eps)
 
     def prox_1d(self, value, stepsize, j):
         """Compute the proximal operator of the log-sum penalty."""
